@@ -205,7 +205,7 @@ theorem chargeLoop_sum (rate : Nat) : ∀ (ds : List Dep) (g : Nat) (b : List (A
 
 theorem execMsg_frame {m : Msg} {s s' : State} (h : execMsg m s = some s') :
     s'.props = s.props ∧ s'.deps = s.deps ∧ s'.gov = s.gov ∧ s'.inactive = s.inactive ∧ s'.active = s.active ∧
-    s'.time = s.time ∧ s'.params = s.params ∧ s'.nextId = s.nextId := by
+    s'.time = s.time ∧ s'.params = s.params ∧ s'.nextId = s.nextId ∧ s'.votes = s.votes := by
   unfold execMsg at h
   split at h
   · cases h
@@ -223,7 +223,7 @@ theorem execMsg_frame {m : Msg} {s s' : State} (h : execMsg m s = some s') :
 
 theorem execMsgs_frame : ∀ (ms : List Msg) (s s' : State), execMsgs ms s = some s' →
     s'.props = s.props ∧ s'.deps = s.deps ∧ s'.gov = s.gov ∧ s'.inactive = s.inactive ∧ s'.active = s.active ∧
-    s'.time = s.time ∧ s'.params = s.params ∧ s'.nextId = s.nextId := by
+    s'.time = s.time ∧ s'.params = s.params ∧ s'.nextId = s.nextId ∧ s'.votes = s.votes := by
   intro ms
   induction ms with
   | nil => intro s s' h; simp [execMsgs] at h; subst h; simp
@@ -236,7 +236,7 @@ theorem execMsgs_frame : ∀ (ms : List Msg) (s s' : State), execMsgs ms s = som
       have f2 := ih _ _ h
       refine ⟨f2.1.trans f1.1, f2.2.1.trans f1.2.1, f2.2.2.1.trans f1.2.2.1, f2.2.2.2.1.trans f1.2.2.2.1,
         f2.2.2.2.2.1.trans f1.2.2.2.2.1, f2.2.2.2.2.2.1.trans f1.2.2.2.2.2.1, f2.2.2.2.2.2.2.1.trans f1.2.2.2.2.2.2.1,
-        f2.2.2.2.2.2.2.2.trans f1.2.2.2.2.2.2.2⟩
+        f2.2.2.2.2.2.2.2.1.trans f1.2.2.2.2.2.2.2.1, f2.2.2.2.2.2.2.2.2.trans f1.2.2.2.2.2.2.2.2⟩
     · cases h
 
 /-! ### preservation -/
@@ -250,7 +250,8 @@ theorem noRec_depsNot {ds : List Dep} {pid : Nat} {ps : List Proposal}
 /-- settling all deposits of `pid` out of a state whose balance covers all deposits -/
 theorem refundDeposits_spec {s s' : State} {pid : Nat} (hb : s.gov = sumAmt s.deps) (h : refundDeposits pid s = .ok s') :
     s'.gov = sumAmt s'.deps ∧ s'.deps = depsNot s.deps pid ∧ s'.props = s.props ∧ s'.inactive = s.inactive ∧
-    s'.active = s.active ∧ s'.time = s.time ∧ s'.params = s.params ∧ s'.custom = s.custom ∧ s'.nextId = s.nextId := by
+    s'.active = s.active ∧ s'.time = s.time ∧ s'.params = s.params ∧ s'.custom = s.custom ∧ s'.nextId = s.nextId ∧
+    s'.votes = s.votes := by
   unfold refundDeposits at h
   split at h
   · cases h
@@ -258,7 +259,7 @@ theorem refundDeposits_spec {s s' : State} {pid : Nat} (hb : s.gov = sumAmt s.de
     have hs := refundLoop_sum _ _ _ _ _ hr
     cases h
     have := sumAmt_split s.deps pid
-    refine ⟨?_, rfl, rfl, rfl, rfl, rfl, rfl, rfl, rfl⟩
+    refine ⟨?_, rfl, rfl, rfl, rfl, rfl, rfl, rfl, rfl, rfl⟩
     simp only; omega
 
 theorem refundDeposits_total {s : State} {pid : Nat} (hb : s.gov = sumAmt s.deps) : ∃ s', refundDeposits pid s = .ok s' := by
@@ -270,14 +271,15 @@ theorem refundDeposits_total {s : State} {pid : Nat} (hb : s.gov = sumAmt s.deps
 
 theorem burnDeposits_spec {s s' : State} {pid : Nat} (hb : s.gov = sumAmt s.deps) (h : burnDeposits pid s = .ok s') :
     s'.gov = sumAmt s'.deps ∧ s'.deps = depsNot s.deps pid ∧ s'.props = s.props ∧ s'.inactive = s.inactive ∧
-    s'.active = s.active ∧ s'.time = s.time ∧ s'.params = s.params ∧ s'.custom = s.custom ∧ s'.nextId = s.nextId := by
+    s'.active = s.active ∧ s'.time = s.time ∧ s'.params = s.params ∧ s'.custom = s.custom ∧ s'.nextId = s.nextId ∧
+    s'.votes = s.votes := by
   unfold burnDeposits at h
   simp only at h
   split at h
   · cases h
   · cases h
     have := sumAmt_split s.deps pid
-    refine ⟨?_, rfl, rfl, rfl, rfl, rfl, rfl, rfl, rfl⟩
+    refine ⟨?_, rfl, rfl, rfl, rfl, rfl, rfl, rfl, rfl, rfl⟩
     simp only; omega
 
 theorem burnDeposits_total {s : State} {pid : Nat} (hb : s.gov = sumAmt s.deps) : ∃ s', burnDeposits pid s = .ok s' := by
@@ -308,27 +310,53 @@ theorem dropInactive_inv {s s' : State} {pid : Nat} (hsh : inactiveSettleShapeOk
     · have sp := burnDeposits_spec (by simpa using hi.bal) h
       exact key _ s' ⟨sp.1, sp.2.1, sp.2.2.1⟩ rfl rfl
 
-theorem runProposalMsgs_frame (hc : execInCacheCtx = true) (ms : List Msg) (s : State) :
-    (runProposalMsgs ms s).1.props = s.props ∧ (runProposalMsgs ms s).1.deps = s.deps ∧ (runProposalMsgs ms s).1.gov = s.gov := by
+theorem execPrefix_frame : ∀ (ms : List Msg) (s : State),
+    (execPrefix ms s).props = s.props ∧ (execPrefix ms s).deps = s.deps ∧ (execPrefix ms s).gov = s.gov ∧
+    (execPrefix ms s).inactive = s.inactive ∧ (execPrefix ms s).active = s.active ∧ (execPrefix ms s).time = s.time ∧
+    (execPrefix ms s).params = s.params ∧ (execPrefix ms s).nextId = s.nextId ∧ (execPrefix ms s).votes = s.votes := by
+  intro ms
+  induction ms with
+  | nil => intro s; exact ⟨rfl, rfl, rfl, rfl, rfl, rfl, rfl, rfl, rfl⟩
+  | cons m r ih =>
+    intro s
+    simp only [execPrefix]
+    split
+    · rename_i s1 h1
+      have f1 := execMsg_frame h1
+      have f2 := ih s1
+      exact ⟨f2.1.trans f1.1, f2.2.1.trans f1.2.1, f2.2.2.1.trans f1.2.2.1, f2.2.2.2.1.trans f1.2.2.2.1,
+        f2.2.2.2.2.1.trans f1.2.2.2.2.1, f2.2.2.2.2.2.1.trans f1.2.2.2.2.2.1, f2.2.2.2.2.2.2.1.trans f1.2.2.2.2.2.2.1,
+        f2.2.2.2.2.2.2.2.1.trans f1.2.2.2.2.2.2.2.1, f2.2.2.2.2.2.2.2.2.trans f1.2.2.2.2.2.2.2.2⟩
+    · exact ⟨rfl, rfl, rfl, rfl, rfl, rfl, rfl, rfl, rfl⟩
+
+/-- whatever the messages of a passed proposal do, they touch neither the proposals, the deposits, the module balance,
+the queues, the parameters nor the votes (whether or not the error test after the loop sees the handler's error) -/
+theorem runProposalMsgs_same (hc : execInCacheCtx = true) (ms : List Msg) (s : State) :
+    (runProposalMsgs ms s).1.props = s.props ∧ (runProposalMsgs ms s).1.deps = s.deps ∧ (runProposalMsgs ms s).1.gov = s.gov ∧
+    (runProposalMsgs ms s).1.inactive = s.inactive ∧ (runProposalMsgs ms s).1.active = s.active ∧
+    (runProposalMsgs ms s).1.time = s.time ∧ (runProposalMsgs ms s).1.params = s.params ∧
+    (runProposalMsgs ms s).1.nextId = s.nextId ∧ (runProposalMsgs ms s).1.votes = s.votes := by
   unfold runProposalMsgs
   simp only [hc, if_true]
   split
-  · rename_i s' h
-    have := execMsgs_frame _ _ _ h
-    exact ⟨this.1, this.2.1, this.2.2.1⟩
-  · exact ⟨rfl, rfl, rfl⟩
+  · split
+    · rename_i s' h
+      exact execMsgs_frame _ _ _ h
+    · exact ⟨rfl, rfl, rfl, rfl, rfl, rfl, rfl, rfl, rfl⟩
+  · exact execPrefix_frame ms s
 
-theorem tallyOne_inv {s s' : State} {pid : Nat} {e : TallyEnv} (hsh : settleShapeOk = true) (hc : execInCacheCtx = true)
-    (hi : Inv s) (h : tallyOne e pid s = .ok s') : Inv s' := by
-  unfold tallyOne at h
-  split at h
-  · cases h
-  · rename_i p hp
-    have hpid : p.id = pid := findProp_id hp
+theorem runProposalMsgs_frame (hc : execInCacheCtx = true) (ms : List Msg) (s : State) :
+    (runProposalMsgs ms s).1.props = s.props ∧ (runProposalMsgs ms s).1.deps = s.deps ∧ (runProposalMsgs ms s).1.gov = s.gov := by
+  have := runProposalMsgs_same hc ms s
+  exact ⟨this.1, this.2.1, this.2.2.1⟩
+
+theorem finishTally_inv {s s' : State} {pid : Nat} {p : Proposal} {passes burn : Bool} {res : Nat × Nat × Nat × Nat}
+    (hsh : settleShapeOk = true) (hc : execInCacheCtx = true)
+    (hi : Inv s) (hp : findProp s.props pid = some p) (h : finishTally passes burn res p pid s = .ok s') : Inv s' := by
+  unfold finishTally at h
+  simp only [hsh, Bool.not_true, Bool.false_and, Bool.false_eq_true, if_false] at h
+  · have hpid : p.id = pid := findProp_id hp
     simp only [hsh, if_true] at h
-    generalize htl : tally s p e = tl at h
-    obtain ⟨passes, burn⟩ := tl
-    simp only at h
     by_cases hkeep : (p.expedited && !passes) = true
     · -- failed expedited proposal: deposits stay, the proposal stays in voting
       simp only [hkeep, Bool.not_true, Bool.false_eq_true, if_false] at h
@@ -394,6 +422,19 @@ theorem tallyOne_inv {s s' : State} {pid : Nat} {e : TallyEnv} (hsh : settleShap
             refine recs1 _ ?_ _ hp1 d hd
             exact hpid
 
+theorem tallyOne_inv {s s' : State} {pid : Nat} {stk : Staking} (hsh : settleShapeOk = true) (hc : execInCacheCtx = true)
+    (hi : Inv s) (h : tallyOne stk pid s = .ok s') : Inv s' := by
+  unfold tallyOne at h
+  split at h
+  · cases h
+  · rename_i p hp
+    split at h
+    · cases h
+    · split at h
+      · cases h
+      · exact finishTally_inv (s := { s with votes := if tallyRemovesVotes = true then votesNot s.votes pid else s.votes })
+          hsh hc ⟨hi.bal, hi.recs⟩ hp h
+
 theorem runAll_inv {f : Nat → State → Except Err State} (hf : ∀ id s s', Inv s → f id s = .ok s' → Inv s') :
     ∀ (ids : List Nat) (s s' : State), Inv s → runAll f ids s = .ok s' → Inv s' := by
   intro ids
@@ -407,7 +448,7 @@ theorem runAll_inv {f : Nat → State → Except Err State} (hf : ∀ id s s', I
       exact ih _ _ (hf _ _ _ hi h1) h
     · cases h
 
-theorem endBlock_inv {s s' : State} {envs : List (Nat × TallyEnv)} (h1 : inactiveSettleShapeOk = true)
+theorem endBlock_inv {s s' : State} {envs : Staking} (h1 : inactiveSettleShapeOk = true)
     (h2 : settleShapeOk = true) (h3 : execInCacheCtx = true) (hi : Inv s) (h : endBlock envs s = .ok s') : Inv s' := by
   unfold endBlock at h
   split at h
@@ -545,11 +586,24 @@ theorem step_inv (h1 : inactiveSettleShapeOk = true) (h2 : settleShapeOk = true)
     split
     · rename_i s' h; exact cancel_inv hi h
     · exact hi
-  | vote pid =>
+  | vote pid voter opts =>
+    simp only [step, Model.C15.ofExcept]
+    split
+    · rename_i s' h
+      unfold vote at h
+      split at h
+      · cases h
+      · split at h
+        · cases h
+        · split at h
+          · cases h; exact ⟨hi.bal, hi.recs⟩
+          · cases h
+    · exact hi
+  | spend who amt =>
     simp only [step]
     split
-    · split <;> exact hi
     · exact hi
+    · exact ⟨hi.bal, hi.recs⟩
   | endBlock dt envs =>
     simp only [step]
     split
